@@ -856,7 +856,53 @@ func c08Colons(c *Ctx, fn *ssa.Function) {
 
 // checkEffectiveProperty: if fn reads property `key` of a column chosen by a non-constant index, it must also
 // read it from column 0 and use that value where the column's own value is nil.
+// checkEffectiveProperty applies the resolution rule to fn and to the helpers of its own package it delegates to.
 func checkEffectiveProperty(c *Ctx, rule string, fn *ssa.Function, keyPkg, keyVar string) {
+	key := c.Global(keyPkg, keyVar)
+	n := 0
+	for _, f := range pkgReach(fn, 2) {
+		has := false
+		eachInstr(f, func(in ssa.Instruction) {
+			if call, ok := in.(*ssa.Call); ok && len(call.Call.Args) > 0 {
+				if g := loadedGlobal(unwrap(call.Call.Args[len(call.Call.Args)-1], true)); g != nil && g == key {
+					has = true
+				}
+			}
+		})
+		if has {
+			n++
+			checkEffectiveProperty1(c, rule, f, keyPkg, keyVar)
+		}
+	}
+	if n == 0 {
+		checkEffectiveProperty1(c, rule, fn, keyPkg, keyVar)
+	}
+}
+
+// pkgReach: fn and the functions of fn's own package it calls statically, transitively up to depth.
+func pkgReach(fn *ssa.Function, depth int) []*ssa.Function {
+	out := []*ssa.Function{fn}
+	seen := map[*ssa.Function]bool{fn: true}
+	frontier := []*ssa.Function{fn}
+	for d := 0; d < depth; d++ {
+		var next []*ssa.Function
+		for _, f := range frontier {
+			eachInstr(f, func(in ssa.Instruction) {
+				cal := staticCallee(in)
+				if cal == nil || seen[cal] || cal.Blocks == nil || funcPkgPath(cal) != funcPkgPath(fn) {
+					return
+				}
+				seen[cal] = true
+				out = append(out, cal)
+				next = append(next, cal)
+			})
+		}
+		frontier = next
+	}
+	return out
+}
+
+func checkEffectiveProperty1(c *Ctx, rule string, fn *ssa.Function, keyPkg, keyVar string) {
 	r := c.R
 	key := c.Global(keyPkg, keyVar)
 	if key == nil {
